@@ -362,6 +362,13 @@ func (e *c01issEnv) setupThread(i int, sp c01issThread) (*c01issRT, error) {
 		_, err := e.b.GetLog().Begin(doubles.Op{Inst: rt.inst, Kind: "Event", Key: event})
 		return err
 	}
+	if sp.Prog == "handshake" {
+		// an on-demand TLS handshake for a name that is not in the cache: decision, load from storage,
+		// obtain (ObtainCertAsync under the handshake's 180 s timeout), load again. ARI refreshes run in
+		// a background goroutine of their own and are switched off here.
+		tmpl.OnDemand = &certmagic.OnDemandConfig{DecisionFunc: func(context.Context, string) error { return nil }}
+		tmpl.DisableARI = true
+	}
 	rt.cfg, rt.cache = doubles.NewConfig(rt.storage, tmpl, certmagic.CacheOptions{}, iss)
 	rt.ctx, rt.cancel = context.WithCancel(context.Background())
 	rt.eff = sp.Name
@@ -373,6 +380,14 @@ func (e *c01issEnv) setupThread(i int, sp c01issThread) (*c01issRT, error) {
 	case "manage":
 		progCode, flag = 2, 0
 		rt.eff = certmagic.VerifLocksNormalizedName(sp.Name)
+	case "handshake":
+		// In the model this request is the ManageSync program: without faults of its own the operations are
+		// the same (load; obtain: pre-check, lock, re-check, issue, save, unlock; load; cache) -- the retry loop
+		// of ObtainCertAsync and the wildcard look-up (filtered out in the hook) differ only off this path.
+		progCode, flag = 2, 0
+		if a, err := idna.Lookup.ToASCII(strings.TrimSpace(sp.Name)); err == nil {
+			rt.eff = a // getNameFromClientHello
+		}
 	case "clean":
 		progCode, flag = 3, c01B2i(sp.Interval)
 	case "ari":
@@ -501,6 +516,10 @@ func (e *c01issEnv) body(rt *c01issRT) (res int) {
 		}
 	case "manage":
 		err = rt.cfg.ManageSync(rt.ctx, []string{sp.Name})
+	case "handshake":
+		hello, closeConn := doubles.Hello(sp.Name)
+		defer closeConn()
+		_, err = rt.cfg.GetCertificateWithContext(rt.ctx, hello)
 	case "clean":
 		opts := certmagic.CleanStorageOptions{Logger: zap.NewNop(), InstanceID: rt.inst, OCSPStaples: true, ExpiredCerts: true, ExpiredCertGracePeriod: time.Hour}
 		if sp.Interval {
@@ -524,6 +543,11 @@ func (e *c01issEnv) hook(op *doubles.Op) error {
 	}
 	tid, err := strconv.Atoi(op.Inst[1:])
 	if err != nil || tid >= len(e.threads) {
+		return nil
+	}
+	if e.threads[tid].spec.Prog == "handshake" && (op.Kind == "Load" && strings.Contains(op.Key, "/wildcard_") || op.Kind == "Event" && op.Key == "tls_get_certificate") {
+		// loadCertFromStorage's second look-up (*.example, never there) and the tls_get_certificate event at
+		// the start of GetCertificate: not part of the model, let through ungated
 		return nil
 	}
 	a := &c01issArrival{tid: tid, op: *op, reply: make(chan int, 1)}
@@ -697,6 +721,9 @@ func (e *c01issEnv) faultFor(rt *c01issRT, a *c01issArrival) int {
 			rt.usedF[k] = true
 			f = v
 		}
+	}
+	if rt.spec.Prog == "handshake" {
+		return c01fNone // see setupThread: modelled without faults of its own
 	}
 	// budget: a retry loop that would never end is cancelled
 	if f == c01fNone && rt.nops >= 70 && a.op.Kind != "Unlock" && !rt.canc {
@@ -1112,7 +1139,7 @@ func c01RunIssCase(cs c01issCase) (*c01issObs, error) {
 	for _, rt := range e.threads {
 		o.Results = append(o.Results, rt.res)
 		seen := -1
-		if rt.spec.Prog == "manage" {
+		if rt.spec.Prog == "manage" || rt.spec.Prog == "handshake" {
 			certs := rt.cache.AllMatchingCertificates(strings.ToLower(rt.ascii))
 			if len(certs) > 0 && certs[0].Leaf != nil {
 				seen = c01SerialToCid(certs[0].Leaf.SerialNumber.Int64())
